@@ -58,7 +58,9 @@ pub fn decode(src: &mut BytesMut) -> Result<Address> {
             let len = src.get_u8();
             let host_bytes = src.split_to(len as usize);
             let port = src.get_u16();
-            let host = unsafe { String::from_utf8_unchecked(host_bytes.to_vec()) };
+            // a name that is not UTF-8 is refused: a `String` must not hold it, and the VMess encoding of the same
+            // address is refused by its receiver
+            let host = String::from_utf8(host_bytes.to_vec()).map_err(|_| anyhow::anyhow!("host name is not valid UTF-8"))?;
             Ok(Address::Domain(host, port))
         }
         Socks5AddressType::Ipv6 => {
